@@ -468,3 +468,174 @@ Proof.
 Qed.
 
 End Sim.
+
+(* ================= acting on an "unused label" warning ================= *)
+Definition remove_at {A} (i : nat) (l : list A) : list A := firstn i l ++ skipn (S i) l.
+
+Lemma remove_at_cons {A} (x : A) t i : remove_at (S i) (x :: t) = x :: remove_at i t.
+Proof. reflexivity. Qed.
+
+Lemma in_remove_at {A} (x : A) : forall i l, In x (remove_at i l) -> In x l.
+Proof.
+  unfold remove_at. intros i l H. apply in_app_iff in H. destruct H as [H|H].
+  - rewrite <- (firstn_skipn i l). apply in_app_iff. left; exact H.
+  - rewrite <- (firstn_skipn (S i) l). apply in_app_iff. right; exact H.
+Qed.
+
+Lemma jumps_to_true l c : jumps_to l c = true -> exists j cond, nth_error c j = Some (SJump l cond).
+Proof.
+  unfold jumps_to. intros H. apply existsb_exists in H. destruct H as (s & Hin & Hs).
+  destruct s; try discriminate. apply str_eqb_eq in Hs. subst. apply In_nth_error in Hin. destruct Hin as (j & Hj). eauto.
+Qed.
+
+Lemma unused_not_jumped l c : last_jump l c = None -> jumps_to l c = false.
+Proof.
+  intros H. destruct (jumps_to l c) eqn:E; [|reflexivity]. apply jumps_to_true in E. destruct E as (j & cond & Hj).
+  exfalso. eapply (proj1 (last_jump_none l c) H). exact Hj.
+Qed.
+
+Lemma drel_delete (SR : stmt -> stmt -> Prop) used l : (forall s, SR s s) -> used l = false ->
+  forall c i, nth_error c i = Some (SLabel l) -> drel SR used c (remove_at i c) /\ drel SR used (remove_at i c) c.
+Proof.
+  intros Hrefl Hu. induction c as [|x t IH]; intros i Hn; [destruct i; discriminate|].
+  destruct i as [|i]; cbn in Hn.
+  - injection Hn as ->. unfold remove_at. cbn. split.
+    + apply dr_skipl; [exact Hu|apply drel_refl; exact Hrefl].
+    + destruct t as [|s t0]; [apply dr_skipr_nil; exact Hu|apply dr_skipr_keep; [exact Hu|apply Hrefl|apply drel_refl; exact Hrefl]].
+  - rewrite remove_at_cons. destruct (IH i Hn) as [D1 D2]. split; apply dr_keep; auto.
+Qed.
+
+(* the list with one unused label deleted is related to the original, in both directions *)
+Lemma delete_unused_label_rel (SR : stmt -> stmt -> Prop) c l i : (forall s, SR s s) ->
+  find_label l c = Some i -> last_jump l c = None ->
+  crel SR c (remove_at i c) /\ crel SR (remove_at i c) c.
+Proof.
+  intros Hrefl Hf Hl. apply find_label_first in Hf. destruct Hf as [Hn _].
+  destruct (drel_delete SR (fun l0 => jumps_to l0 c) l Hrefl (unused_not_jumped _ _ Hl) c i Hn) as [D1 D2].
+  split; exists (fun l0 => jumps_to l0 c); (split; [|assumption]).
+  - apply covers_jumps_to.
+  - intros j l0 cond Hj. unfold jumps_to. apply existsb_exists. exists (SJump l0 cond). split; [|apply str_eqb_refl].
+    eapply in_remove_at. eapply nth_error_In. exact Hj.
+Qed.
+
+(* replace the body of the function statement at index k *)
+Fixpoint set_body (s : list stmt) (k : nat) (body' : list stmt) : list stmt :=
+  match s with
+  | [] => []
+  | x :: t =>
+    match k with
+    | O => (match x with SFunction n a b c _ => SFunction n a b c body' | other => other end) :: t
+    | S k' => x :: set_body t k' body'
+    end
+  end.
+
+Lemma set_body_rel used : forall s k n a b c body body', nth_error s k = Some (SFunction n a b c body) -> body_rel body body' ->
+  drel stmt_rel used s (set_body s k body') /\ (body_rel body' body -> drel stmt_rel used (set_body s k body') s).
+Proof.
+  induction s as [|x t IH]; intros k n a b c body body' Hn Hb; [destruct k; discriminate|].
+  destruct k as [|k]; cbn in Hn.
+  - injection Hn as ->. cbn. split; [|intros Hb']; (apply dr_keep; [|apply drel_refl; intros s0; left; reflexivity]); right; do 6 eexists; (split; [reflexivity|split; [reflexivity|assumption]]).
+  - destruct (IH k n a b c body body' Hn Hb) as [D1 D2]. cbn. split; [|intros Hb']; (apply dr_keep; [left; reflexivity|auto]).
+Qed.
+
+Lemma covers_set_body s body' : forall k j l cond,
+  nth_error (set_body s k body') j = Some (SJump l cond) -> nth_error s j = Some (SJump l cond).
+Proof.
+  induction s as [|x t IH]; intros k j l cond H; [exact H|].
+  destruct k as [|k]; cbn in H.
+  - destruct j as [|j]; [|exact H]. cbn in *. destruct x; try exact H. discriminate.
+  - destruct j as [|j]; [exact H|]. cbn in *. eapply IH. exact H.
+Qed.
+
+Section Run.
+Variable cfg : config.
+Variable lib : caller -> str -> list value -> world -> Interp.lres * world.
+Variable url_rel : str -> str -> str.
+Variable lint_lines : script -> list str.
+Hypothesis Hmax : c_max cfg = 0%Z.
+Hypothesis Hlib : lib_sim lib.
+Notation run := (execute_script cfg lib url_rel lint_lines).
+
+Lemma fdrel_refl fd : fdrel fd fd.
+Proof. repeat split. exists (fun l => jumps_to l (fd_body fd)). split; [apply covers_jumps_to|apply drel_refl; reflexivity]. Qed.
+Lemma wrel_refl w : wrel w w.
+Proof. repeat split. induction (w_funs w); constructor; [apply fdrel_refl|assumption]. Qed.
+
+(* related scripts behave alike: a run of c that finishes within fuel f is the run of c' (result, log, globals, heap, fetches;
+   statementCount and the bodies stored for script functions excepted) *)
+Theorem related_scripts_run_alike : forall c c', code_rel c c' ->
+  forall f w o w1, run f c w = (o, w1) -> o <> OFuel ->
+  exists w1', run (2 * f) c' w = (o, w1') /\ wrel w1 w1'.
+Proof.
+  intros c c' (used & Hcov & D) f w o w1 H Ho. unfold execute_script in *.
+  set (w0 := upd_count (upd_globals w (inject_library (w_globals w))) 0) in *.
+  destruct (sim_all cfg lib url_rel lint_lines Hmax Hlib f (2 * f) (le_n _)) as (_ & _ & Hx).
+  specialize (Hx used c c' 0 0 [] [] None UHost w0 w0 Hcov D D (cache_ok_nil _) (cache_ok_nil _) (wrel_refl w0)).
+  destruct (Interp.exec cfg lib url_rel lint_lines f c 0 [] None UHost w0) as [[o1 l1] w2].
+  destruct (Interp.exec cfg lib url_rel lint_lines (2 * f) c' 0 [] None UHost w0) as [[o1' l1'] w2'].
+  injection H as -> ->. destruct Hx as [Hf|(Ho' & _ & Hr)]; cbn [fst snd] in *; [congruence|]. subst o1'. exists w2'. split; [reflexivity|exact Hr].
+Qed.
+
+(* C18, unused GLOBAL label: deleting the statement lint points at changes no run, in either direction *)
+Theorem unused_global_label_delete : forall s l i, In (WUnusedLabel l i) (lint s) ->
+  nth_error s i = Some (SLabel l) /\
+  (forall f w o w1, run f s w = (o, w1) -> o <> OFuel -> exists w1', run (2 * f) (remove_at i s) w = (o, w1') /\ wrel w1 w1') /\
+  (forall f w o w1, run f (remove_at i s) w = (o, w1) -> o <> OFuel -> exists w1', run (2 * f) s w = (o, w1') /\ wrel w1 w1').
+Proof.
+  intros s l i H. apply unused_label_global_iff in H. destruct H as [Hf Hl].
+  destruct (delete_unused_label_rel stmt_rel s l i (fun s0 => or_introl eq_refl) Hf Hl) as [R1 R2].
+  split; [apply (find_label_first _ _ _ Hf)|]. split; apply related_scripts_run_alike; assumption.
+Qed.
+
+(* C18, unused label of a FUNCTION: deleting it from the body of the function statement changes no run *)
+Theorem unused_fn_label_delete : forall s l fn i, In (WFnUnusedLabel l fn i) (lint s) ->
+  exists k args a b body, nth_error s k = Some (SFunction fn args a b body) /\ nth_error body i = Some (SLabel l) /\
+  let s' := set_body s k (remove_at i body) in
+  (forall f w o w1, run f s w = (o, w1) -> o <> OFuel -> exists w1', run (2 * f) s' w = (o, w1') /\ wrel w1 w1') /\
+  (forall f w o w1, run f s' w = (o, w1) -> o <> OFuel -> exists w1', run (2 * f) s w = (o, w1') /\ wrel w1 w1').
+Proof.
+  intros s l fn i H. apply unused_label_fn_iff in H. destruct H as (k & args & a & b & body & Hn & Hf & Hl).
+  exists k, args, a, b, body. split; [exact Hn|]. split; [apply (find_label_first _ _ _ Hf)|].
+  destruct (delete_unused_label_rel eq body l i (fun s0 => eq_refl) Hf Hl) as [R1 R2].
+  destruct (set_body_rel (fun l0 => jumps_to l0 s) s k fn args a b body (remove_at i body) Hn R1) as [D1 D2].
+  cbv zeta. split; apply related_scripts_run_alike.
+  - exists (fun l0 => jumps_to l0 s). split; [apply covers_jumps_to|exact D1].
+  - exists (fun l0 => jumps_to l0 s). split; [|apply D2; exact R2].
+    intros j l0 cond Hj. apply (covers_jumps_to s j l0 cond). eapply covers_set_body; exact Hj.
+Qed.
+
+End Run.
+
+(* ---- the premise on the library is satisfiable, also by a library that calls back into script functions ---- *)
+Definition toy_lib (cb : caller) (name : str) (args : list value) (w : world) : Interp.lres * world :=
+  if op_is name "apply" then
+    match args with
+    | fv :: rest =>
+      match cb fv rest w with
+      | (OVal v, w1) => (LVal v, add_log w1 (U "applied"))
+      | (ORt m, w1) => (LRt m, w1)
+      | (OFuel, w1) => (LFuel, w1)
+      | (OExc r m, w1) => (LArgs r m, w1)
+      | (_, w1) => (LOracle, w1)
+      end
+    | [] => (LVal VNull, w)
+    end
+  else (LVal VNull, add_log w name).
+
+Lemma toy_lib_sim : lib_sim toy_lib.
+Proof.
+  intros cb cb' Hcb name args w w' Hw. unfold toy_lib. destruct (op_is name "apply").
+  - destruct args as [|fv rest]; [right; split; [reflexivity|exact Hw]|].
+    destruct (Hcb fv rest w w' Hw) as [Hf|[Ho Hr]].
+    + destruct (cb fv rest w) as [o w1]. cbn in Hf. subst o. left. reflexivity.
+    + destruct (cb fv rest w) as [o w1], (cb' fv rest w') as [o' w1']. cbn in Ho, Hr. subst o'.
+      destruct o; try (right; split; [reflexivity|exact Hr]).
+      right. split; [reflexivity|]. apply wrel_add_log. exact Hr.
+  - right. split; [reflexivity|]. apply wrel_add_log. exact Hw.
+Qed.
+
+Example unused_label_demo :
+  let s := [SJump (U "b") None; SLabel (U "a"); SLabel (U "b"); SExpr (Some (U "x")) (ENum (NInt 1))] in
+  In (WUnusedLabel (U "a") 1) (lint s) /\
+  remove_at 1 s = [SJump (U "b") None; SLabel (U "b"); SExpr (Some (U "x")) (ENum (NInt 1))].
+Proof. vm_compute. split; [tauto|reflexivity]. Qed.
